@@ -58,7 +58,7 @@ func genAttackCase(t *rapid.T, ao attackOpts) AttackCase {
 		sp.IdPIssuer = ""
 	}
 	// store: generated subset of trusted and unrelated certificates
-	all := []h.CertRef{{Key: "T1", Window: "wide"}, {Key: "T2", Window: "wide"}, {Key: "T3", Window: "wide"}, {Key: "U1", Window: "wide"}}
+	all := []h.CertRef{{Key: "T1", Window: "wide"}, {Key: "T2", Window: "wide"}, {Key: "T3", Window: "wide"}, {Key: "U1", Window: "wide"}, {Key: "T1", Window: "wide-ski"}, {Key: "T2", Window: "wide-ski"}}
 	sp.Store = nil
 	for _, c := range rapid.Permutation(all).Draw(t, "storeOrder") {
 		if rapid.IntRange(0, 3).Draw(t, "inStore") != 0 {
